@@ -22,6 +22,7 @@ func init() { register("C10", c10) }
 //   o  unary that answers at once            U  unary blocked on its context
 //   R  stream blocked in RecvMsg             S  stream blocked in SendMsg (peer does not read)
 //   X  stream blocked on its context         e  stream that echoes one message and ends
+//   Z  stream that the peer resets; its handler notices the cancellation and then winds down slowly
 type c10End struct {
 	kind string // "read" | "write" | "stop"
 	at   int
@@ -29,7 +30,7 @@ type c10End struct {
 
 func c10(tier string) []*explore.Scenario {
 	var out []*explore.Scenario
-	sets := []string{"", "o", "U", "R", "X", "S", "oU", "UR", "RX", "oS", "URX", "UU", "RR"}
+	sets := []string{"", "o", "U", "R", "X", "S", "oU", "UR", "RX", "oS", "URX", "UU", "RR", "Z", "ZR", "oZ"}
 	if tier == "thorough" {
 		sets = append(sets, "UURR", "oURXS", "UUUUUUUU", "RRRRRRRR", "XXXXSSSS", "UUUUUUUURRRRRRRR")
 	}
@@ -63,6 +64,8 @@ func c10Reqs(c rune) int {
 		return 1
 	case 'R', 'X', 'S':
 		return 1
+	case 'Z':
+		return 2
 	case 'e':
 		return 3
 	}
@@ -106,6 +109,15 @@ func c10One(set string, end c10End, bound int) *explore.Scenario {
 						return "late", nil
 					}
 					script = append(script, env.ReqUnary(id, tag, "x"))
+				case 'Z':
+					r := w.Rec(tag, "Bidi")
+					recs = append(recs, r)
+					w.Handlers[tag] = func(r *env.Rec, ss grpc.ServerStream) error {
+						<-ss.Context().Done()
+						<-release // still busy cleaning up when the connection ends
+						return status.Error(codes.Canceled, "reset")
+					}
+					script = append(script, env.ReqOpen(id, env.MBidi, tag), env.ReqReset(id, env.MBidi))
 				case 'R', 'X', 'S':
 					r := w.Rec(tag, "Bidi")
 					recs = append(recs, r)
@@ -175,8 +187,9 @@ func c10One(set string, end c10End, bound int) *explore.Scenario {
 				d.Pipe.A.Break()
 				vsched.Quiesce()
 			}
+			slow := strings.Contains(set, "Z") // a handler that is only released below
 			vsched.Obs("serveDone=%v err=%v", d.ServeDone, d.ServeErr)
-			if !d.ServeDone {
+			if !d.ServeDone && !slow {
 				vsched.Fail(fam+"|serve-hang", "Serve did not return after the connection ended (%s@%d, in flight %q); live threads: %s", end.kind, end.at, set, threadList())
 			}
 			for _, r := range recs {
@@ -196,6 +209,9 @@ func c10One(set string, end c10End, bound int) *explore.Scenario {
 			close(release)
 			d.Pipe.A.Break()
 			vsched.Quiesce()
+			if !d.ServeDone {
+				vsched.Fail(fam+"|serve-hang", "Serve did not return after the connection ended and all handlers were released (%s@%d, in flight %q); live threads: %s", end.kind, end.at, set, threadList())
+			}
 			if ts := vsched.Threads(); len(ts) > 0 {
 				vsched.Fail(fam+"|goroutine-leak", "after Serve returned and all handlers were released, goroutines of the connection remain: %s", threadList())
 			}
